@@ -346,7 +346,7 @@ class FakeSSLModule(types.ModuleType):
         super(FakeSSLModule, self).__init__('ssl')
         import ssl as real_ssl
         for k in dir(real_ssl):
-            if k.isupper():
+            if k.isupper() or k.startswith(('PROTOCOL_', 'OP_', 'CERT_', 'HAS_')):
                 setattr(self, k, getattr(real_ssl, k))
         self.SSLError = real_ssl.SSLError
         self.SSLContext = _FakeSSLContext
